@@ -36,10 +36,23 @@ def dt_profile(name, t16):
     return 4
 
 
-class FakeModel:
-    """the smallest model object fdata / implicit integrators / monitors need"""
+try:
+    import flowdyn.modelphy.base as _realbase
+    import flowdyn.meshbase as _realmeshbase
+    _RealModelBase, _RealMeshBase = _realbase.model, _realmeshbase.virtualmesh
+except Exception:          # pragma: no cover
+    _RealModelBase = _RealMeshBase = object
+
+
+class FakeModel(_RealModelBase):
+    """the smallest model object fdata / implicit integrators / monitors need (derived from flowdyn's own base model, so that it
+    inherits whatever default the library adds to the protocol)"""
 
     def __init__(self, islinear=0):
+        try:
+            _RealModelBase.__init__(self, name="fake", neq=1)
+        except Exception:
+            pass
         self.neq = 1
         self.shape = [1]
         self.islinear = islinear
@@ -55,13 +68,26 @@ class FakeModel:
         return
 
 
-class FakeMesh:
+class FakeMesh(_RealMeshBase):
     def __init__(self, ncell):
+        try:
+            _RealMeshBase.__init__(self, type="fake")
+        except Exception:
+            pass
         self.ncell = ncell
+        self.length = float(ncell)
+        self.xf = np.arange(ncell + 1, dtype=float)
+        self.xc = 0.5 + np.arange(ncell, dtype=float)
         self._vol = np.array([1.0, 0.5, 2.0, 1.0, 0.25, 4.0][:ncell])
 
     def vol(self):
         return self._vol
+
+    def centers(self):
+        return self.xc
+
+    def nbfaces(self):
+        return self.ncell + 1
 
     def average(self, data):
         return np.average(data, weights=self._vol)
@@ -123,7 +149,8 @@ def recording_class(cls, log):
             top = self._vdepth == 0
             self._vdepth += 1
             if top:
-                log.append(("sb", float(f.time), f.data[0].tobytes(), float(np.min(dtloc))))
+                log.append(("sb", float(f.time), f.data[0].tobytes(), float(np.min(dtloc)),
+                            (np.zeros(f.data[0].shape[-1]) + np.asarray(dtloc, dtype=float)).tobytes()))
             try:
                 return super().step(f, dtloc)
             finally:
@@ -196,7 +223,16 @@ class Session:
             self.solver.monitors = {}
             qn = self.solver.__dict__.pop("Qn", None)
             try:
-                ref = copy.deepcopy(self.solver)
+                try:
+                    ref = copy.deepcopy(self.solver)
+                except Exception:           # something on the solver object cannot be deep-copied: a shallow copy with its own
+                    ref = copy.copy(self.solver)     # copies of the array-valued attributes is the next best reference
+                    for k_, v_ in list(vars(ref).items()):
+                        if isinstance(v_, (list, np.ndarray)):
+                            try:
+                                setattr(ref, k_, copy.deepcopy(v_))
+                            except Exception:
+                                pass
             finally:
                 self.solver.modeldisc, self.solver.monitors = saved_disc, saved_mon
                 if qn is not None:
@@ -248,14 +284,23 @@ class Session:
         cur = None
         for e in ev:
             if e[0] == "sb":
-                cur = [e[1], e[2], e[3], None, None]
+                cur = [e[1], e[2], e[3], None, None, e[4] if len(e) > 4 else None]
             elif e[0] == "se" and cur is not None:
                 cur[3], cur[4] = e[1], e[2]
                 steps.append(tuple(cur))
                 cur = None
         raw["steps"] = steps
         raw["negsteps"] = sum(1 for s in steps if s[2] < 0)
-        if ts:
+        # the full steps of the run: of the steps taken from one and the same state, the last one (snapshots come first)
+        main = [s_ for k_, s_ in enumerate(steps) if k_ == len(steps) - 1 or (steps[k_ + 1][0], steps[k_ + 1][1]) != (s_[0], s_[1])]
+        raw["ts_fallback"] = False
+        if op != "solve_legacy" and len(ts) != len(main) and all(s_[5] is not None for s_ in main):
+            # the code did not ask calc_timestep once per iteration (a cache, say): that is its business as long as the steps are
+            # right -- the trajectory is then read from the full steps themselves (their own length is the step that was offered)
+            raw["traj"] = [(s_[0], s_[1], s_[2], s_[5]) for s_ in main]
+            raw["ts_fallback"] = True
+            raw["tfin"], raw["bfin"] = (main[-1][3], main[-1][4]) if main else (fb[0], fb[2])
+        elif ts:
             # final state: end of the last step taken in the last iteration
             last_ts = max(k for k, e in enumerate(ev) if e[0] == "ts")
             ends = [e for e in ev[last_ts:] if e[0] == "se"]
